@@ -38,7 +38,7 @@ func init() {
 	Registry["C18"] = &Prop{
 		Plan: func(tier string) Plan {
 			return Plan{Level: "exploration", NCases: c18Matrix + pick(tier, 16, 3000), Batch: 2, CaseTimeout: 180,
-				Rule: "cases 0-19 (role matrix): every request type of both APIs (etcd Txn create/update/delete, Range get/list/count/partitions, Watch, range-stream watch, Lease; native Create/Update/Delete/Compact/Get/Range/Count/ListPartition/RangeStream/Watch) x {leader, follower} x {proxy on, off} x {leader reachable, unreachable, HTTP 400, HTTP 500, the recorded leader being a real node that is not leading (its real /status handler answers)}, handlers built over a call-recording Backend, the REAL revision syncer pointed at an httptest leader, a stub election and a recording proxy. " +
+				Rule: "cases 0-19 (role matrix): every request type of both APIs (etcd Txn create/update/delete, Range get/list/count/partitions, Watch from the next revision and from revision 0 (\"from now\"), range-stream watch, Lease; native Create/Update/Delete/Compact/Get/Range/Count/ListPartition/RangeStream/Watch) x {leader, follower} x {proxy on, off} x {leader reachable, unreachable, HTTP 400, HTTP 500, the recorded leader being a real node that is not leading (its real /status handler answers)}, handlers built over a call-recording Backend, the REAL revision syncer pointed at an httptest leader, a stub election and a recording proxy. " +
 					"oracle: on a follower the backend never sees Create/Update/Delete/Compact/Watch (request rejected Unavailable or handed to the proxy), every backend read is preceded by SetCurrentRevision(v) with v served by the leader during this very request, a failed sync gives an error and no backend read; on the leader writes reach the backend and no sync happens. " +
 					"further cases (two nodes): a leader node and a follower node over one store with the real revision syncer over HTTP; writers on the leader, concurrent readers on the follower; in a third of them the verif hooks hold one reader between fetching and setting the revision while another sits between its own set and its backend read; in another third five readers holding different fetched revisions are released into the set at the same instant (150 rounds). oracle: the follower's response header >= the leader's committed revision sampled before the request began, and the data equals the reference snapshot at the header revision. " +
 					"non-trivial = matrix case with all request types exercised, or two-node case with >=20 follower reads overlapping leader writes; distinct by (role, proxy, leader mode) / (placement, read count)",
@@ -292,13 +292,19 @@ func runC18Matrix(c *harness.Case) {
 	_, err = es.LeaseGrant(ctx, &etcdserverpb.LeaseGrantRequest{TTL: 10})
 	judge("etcd.LeaseGrant", none, false, err, true)
 	// watch (own history) and range stream through the etcd Watch stream
-	for _, neg := range []bool{false, true} {
+	for _, variant := range []string{"next", "from-now", "range-stream"} {
+		neg := variant == "range-stream"
 		wctx, cancel := context.WithCancel(ctx)
 		fw := newFakeWatchServer(wctx)
 		done := make(chan error, 1)
 		go func() { done <- es.Watch(fw) }()
 		cr := &etcdserverpb.WatchCreateRequest{Key: []byte(full), RangeEnd: []byte(fullEnd), StartRevision: int64(n.Committed() + 1)}
 		name, kind := "etcd.Watch", stream
+		if variant == "from-now" {
+			// start revision 0 = "from now on", what a client sends when it does not care about history
+			cr.StartRevision = 0
+			name = "etcd.Watch(from now)"
+		}
 		if neg {
 			cr = &etcdserverpb.WatchCreateRequest{Key: coderC.EncodeObjectKey([]byte(full), 0), RangeEnd: coderC.EncodeObjectKey([]byte(fullEnd), 0), StartRevision: -int64(n.Committed())}
 			name, kind = "etcd.Watch(range stream)", read
@@ -357,17 +363,23 @@ func runC18Matrix(c *harness.Case) {
 	frs := &fakeRangeStream{fakeStream: fakeStream{ctx: ctx}}
 	err = bs.RangeStream(&proto.RangeRequest{Key: coderC.EncodeObjectKey([]byte(full), 0), End: coderC.EncodeObjectKey([]byte(fullEnd), 0)}, frs)
 	judge("brain.RangeStream", read, false, err, true)
-	wctx, wcancel := context.WithCancel(ctx)
-	fbw := &fakeBrainWatch{fakeStream: fakeStream{ctx: wctx}}
-	wd := make(chan error, 1)
-	go func() { wd <- bs.Watch(&proto.WatchRequest{Key: []byte(full), Revision: n.Committed() + 1}, fbw) }()
-	select {
-	case err = <-wd:
-	case <-time.After(300 * time.Millisecond):
-		err = nil
+	for _, fromNow := range []bool{false, true} {
+		wctx, wcancel := context.WithCancel(ctx)
+		fbw := &fakeBrainWatch{fakeStream: fakeStream{ctx: wctx}}
+		wd := make(chan error, 1)
+		req, name := &proto.WatchRequest{Key: []byte(full), Revision: n.Committed() + 1}, "brain.Watch"
+		if fromNow {
+			req.Revision, name = 0, "brain.Watch(from now)"
+		}
+		go func() { wd <- bs.Watch(req, fbw) }()
+		select {
+		case err = <-wd:
+		case <-time.After(300 * time.Millisecond):
+			err = nil
+		}
+		wcancel()
+		judge(name, stream, false, err, true)
 	}
-	wcancel()
-	judge("brain.Watch", stream, false, err, true)
 	c.Stat("leader_status_requests", atomic.LoadInt64(&hits))
 	c.Fingerprint(true, c.R.Name)
 	c.R.Sample = map[string]interface{}{"case": c.R.Name, "requests": log}
